@@ -70,7 +70,9 @@ pub fn run(c: &Case, rep: &mut Report) {
         }
     }
     let mut rows_checked = 0u64;
-    for label in ["emit", "gc"] {
+    // "reedit": the module was emitted once, then instructions were inserted, then it was emitted again - the
+    // second emission is judged like any edited output
+    for label in ["emit", "gc", "reedit"] {
         let out = match end.get(&format!("out.{}", label)) {
             Some(o) => o,
             None => continue,
@@ -99,7 +101,7 @@ pub fn run(c: &Case, rep: &mut Report) {
             }
         };
         let keep = if label == "gc" { Some(reach(&din, &ExtraRoots::default()).keep) } else { None };
-        let inserted = end.num("inserted").unwrap_or(0) > 0 && label == "emit";
+        let inserted = (end.num("inserted").unwrap_or(0) > 0 && label == "emit") || label == "reedit";
         let r = iso::compare_opts(&din, &dout, keep.as_ref(), iso::IsoOpts { skip_output_markers: inserted });
         if let Some(p) = r.problems.iter().find(|p| !p.sig.ends_with("-added")) {
             rep.inconclusive(c, &format!("bijection-unavailable(reported by C03/C04/C06):{}", p.sig));
